@@ -29,7 +29,9 @@ def run(ctx):
     def add(msgs, mode, frag, fam):
         if mode == "sm" and rtmp_only(msgs):
             return
-        scen.append({"sc": len(scen), "mode": mode, "frag": frag, "fam": fam, "msgs": msgs})
+        # a message whose effect only shows when the next message is handled (window acknowledgement size, chunk size,
+        # acknowledgement) must not be the last thing the session sees: every scenario ends with a ping request
+        scen.append({"sc": len(scen), "mode": mode, "frag": frag, "fam": fam, "msgs": list(msgs) + [M("uc", "ping", "6")]})
 
     # 1. state graph of the protocol machine over the whole alphabet, every edge replayed
     res = E.tlc(ctx, "MC_RtmpSession", "MC_RtmpSession_graph.cfg", timeout=900, deadlock=False)
